@@ -13,7 +13,7 @@ from vf.xmodel import Schema, Rop, build_api, build_loader
 
 SHARDS = {'quick': 16, 'thorough': 32}
 TIMEOUT = {'quick': 900, 'thorough': 5400}
-MUST_HIT = ['SortOracle.after-delete-inside-a-chain', 'SortOracle.very-long-chain', 'SortOracle.rejected-calls-in-history', 'SortOracle.same-set-sorted-before-and-after-edits', 'SortOracle.some-whole-chains', 'SortOracle.ring-with-outsiders', 'SortOracle.other-reflexive-associations', 'SortOracle.after-edit-history', 'SortOracle.mixed-subset-termination', 'SortOracle.chains', 'SortOracle.ring', 'StepBudget.guarded-calls', 'SortOracle.subset-termination']
+MUST_HIT = ['SortOracle.after-delete-inside-a-chain', 'SortOracle.very-long-chain', 'SortOracle.rejected-calls-in-history', 'SortOracle.same-set-sorted-before-and-after-edits', 'SortOracle.some-whole-chains', 'SortOracle.ring-with-outsiders', 'SortOracle.other-reflexive-associations', 'SortOracle.after-edit-history', 'SortOracle.mixed-subset-termination', 'SortOracle.chains', 'SortOracle.ring', 'StepBudget.guarded-calls', 'SortOracle.subset-termination', 'SortOracle.results-changed-by-the-caller', 'SortOracle.empty']
 MUST_REACH = ['xtuml/meta.py:sort_reflexive', 'xtuml/meta.py:sort_reflexive.<locals>.sequence_generator']
 ANCHORS = MUST_REACH
 MIN_NONTRIVIAL = {'quick': 500, 'thorough': 500}
@@ -137,7 +137,25 @@ def call_sort(budget, qs, n, phrase):
         budget.limit = None
     if not isinstance(res, xtuml.QuerySet):
         raise Mismatch('result/type', 'returned %s' % type(res).__name__)
+    if res is not qs:
+        # the result belongs to the caller, who goes on using it: whatever is put into it or taken out of it
+        # must not show in any later result
+        if out and budget.guarded % 2:
+            res.clear()
+        else:
+            res.add(FOREIGN)
+        HITS['results-changed-by-the-caller'] = HITS.get('results-changed-by-the-caller', 0) + 1
+    if any(x is FOREIGN for x in out):
+        raise Mismatch('result/earlier-result-shows', 'the result holds what the caller had put into an earlier result')
     return out
+
+
+class Foreign(object):
+    def __repr__(self):
+        return '<put into an earlier result by the caller>'
+
+
+FOREIGN = Foreign()
 
 
 def check_chains(ctx, budget, n, chains, route, order):
@@ -294,8 +312,10 @@ def check_subset(ctx, budget, rng, n, chains, ring, route):
             raise Mismatch('subset/members', 'result holds members outside the given set or twice')
     if True:
         ctx.hit('SortOracle.empty')
-        if list(xtuml.sort_reflexive(xtuml.QuerySet(), 1, 'succeeds')) != []:
-            raise Mismatch('empty', 'empty set does not sort to an empty result')
+        for phrase in ('succeeds', 'precedes', 'succeeds'):
+            got = call_sort(budget, xtuml.QuerySet(), 0, phrase)
+            if got != []:
+                raise Mismatch('empty', 'empty set does not sort to an empty result: %r' % (got,))
 
 
 def mixed_subsets(ctx, budget, n, chains, ring_flags, route):
